@@ -128,16 +128,19 @@ func runSessionsOracle(sessions []*Session, key *isoKey) (string, *Witness) {
 			keyText += "\x00" + key.DocName + "\x00" + key.Doc
 		}
 	}
+	clock0 := clockReads + randDraws
 	for si, s := range sessions {
 		for _, op := range s.Ops {
 			for _, r := range op.Orders {
 				sites[siteFileLine(r.Site)] = true
 			}
-			if op.Clock != nil {
-				sites["simulated-clock-or-randomness"] = true
-			}
 		}
 		r := runSession(s, false)
+		if clockReads+randDraws > clock0 {
+			// (only when the library really read the clock or drew a number: a
+			// stream that is installed but never used explains nothing)
+			sites["simulated-clock-or-randomness"] = true
+		}
 		for _, o := range r.obs {
 			tk := sessionTextKey(s, o.Key)
 			if key != nil && tk == keyText {
